@@ -295,7 +295,11 @@ impl<const K: usize> AffTree<K> {
         }
 
         for (label, node) in to_remove {
-            let _ = self.tree.try_remove_child(node, label);
+            // a decision has to keep at least one branch, otherwise it would turn into a
+            // terminal and inputs for which the tree is undefined would suddenly be mapped
+            if self.tree.contains(node) && self.tree.num_children(node) > 1 {
+                let _ = self.tree.try_remove_child(node, label);
+            }
         }
 
         counter
